@@ -454,11 +454,13 @@ func main() {
 	nL := partL(c)
 	nP := partP(c)
 	nS := partS(c)
+	nD := partD(c)
 	c.Meta.Rule = fmt.Sprintf("A: all sequences of length %d over a 14-call alphabet of NodePoolState methods (1 pool, 2 claims, tight and unlimited node limits, one cross-pool call) plus %d random histories of 5-14 calls over 3 pools x 4 claim names incl. the empty names (protocol-shaped / uniform / with negative arguments), full state compared after every call; "+
 		"L: %d random boundary-seeking inputs each for filterByRemainingResources, subtractMax, Limits.ExceededBy, resources.Subtract; "+
 		"P: %d real Scheduler.Solve passes (one limited pool, random limits/catalog/pod batch, existing nodes of the pool in 8 lifecycle states (in-flight, ready, disrupted-tainted, cordoned, not-ready, uninitialized, marked for deletion, deleting) after a MarkForDeletion / out-of-band removal / UnmarkForDeletion history on the real Cluster (untracked ids in every list position; compared with C03.Model.mrun), with usage recomputed from the API objects, anti-affine and plain batches) with a random or worst-case launch choice per NodeClaim. "+
 		"S: %d random histories of 3-9 steps on the real static provisioning controller + Provisioner.CreateNodeClaims + Cluster over a fake API (replica changes, failing creates, disruption marks, deletions, informer updates). "+
-		"non-trivial = at least two reserve/release/cleanup calls (A), a pass that created a NodeClaim (P), a history that created a NodeClaim (S); distinct by call sequence / input", depth, nRandA, nL, nP, nS)
+		"D: %d random histories on the real static provisioning + deprovisioning controllers and the real disruption Controller (StaticDrift only) with Queue.StartCommand: replica and node-limit changes, failing creates, a failing candidate taint, drift, terminations, informer updates, restarts; then 3 fault-free settle rounds. "+
+		"non-trivial = at least two reserve/release/cleanup calls (A), a pass that created a NodeClaim (P), a history that created a NodeClaim (S); distinct by call sequence / input", depth, nRandA, nL, nP, nS, nD)
 	c.Meta.Exhaustive = true
 	c.Meta.Corr = []string{
 		"state.NodePoolState.{SetNodeClaimMapping,MarkNodeClaim*,Cleanup,ReserveNodeCount,ReleaseNodeCount,UpdateNodeClaim,Reset} = C03.Model.step (full state after every call)",
@@ -468,6 +470,7 @@ func main() {
 		"resources.Subtract = C03.Model.subtract",
 		"Scheduler.Solve remainingResources bookkeeping (NewScheduler, updateRemainingResources, addToNewNodeClaim) = C03.Model.run_pass on remaining0",
 		"state.Cluster.{MarkForDeletion,UnmarkForDeletion,DeleteNode,DeleteNodeClaim} marking of tracked nodes = C03.Model.mrun",
+		"static/deprovisioning Controller.Reconcile = C03.Model.sstep DeprovMark; disruption Controller.Reconcile (StaticDrift.ComputeCommands + Queue.StartCommand) = DriftBegin + SMark/TkCreate/TkUpdate/TkRelease; process restart + informer replay = Restart + InfUpdate",
 		"static/provisioning Controller.Reconcile + Provisioner.CreateNodeClaims/Create + Cluster.UpdateNodeClaim/DeleteNodeClaim = C03.Model.sstep (ProvBegin, TkCreate, TkUpdate, TkRelease, SMark, ApiRemove, InfDelete, InfUpdate)",
 	}
 	c.Meta.Extra = map[string]interface{}{"assumptions": []string{
